@@ -711,3 +711,30 @@ Proof. intros HD Hk. rewrite <- bessel_sum_partial by auto.
   simpl (INR 1). simpl (INR 0). rewrite ln_1.
   unfold vmf_lognorm_series, halfD, osub, odiv. rewrite ogamma_half_R, two_R, onat_R. cbn [oadd omul oopp oinv oln o1 RO].
   change (kappa * / 2) with (kappa / 2). change (INR D * / 2) with (INR D / 2). ring. Qed.
+
+(* ================================================================= C03: spherical GMM, maximum-posterior class *)
+Local Open Scope R_scope.
+(* shared spherical covariance c: the class whose mean is nearer (after the weight offset 2 c ln(pik/pij)) has the larger
+   weighted log-pdf, i.e. the maximum-posterior class of the spherical GMM is the (weight-adjusted) nearest prototype *)
+Theorem gmm_sph_map (D : nat) (muj muk y : nat -> R) (c pij pik : R) : 0 < c -> 0 < pij -> 0 < pik ->
+  rsum D (fun i => (y i - muj i) * (y i - muj i)) + 2 * c * ln (pik / pij)
+    < rsum D (fun i => (y i - muk i) * (y i - muk i)) ->
+  ln pik + gauss_sph_logpdf RO PI D muk y c < ln pij + gauss_sph_logpdf RO PI D muj y c.
+Proof.
+  intros Hc Hj Hk H. unfold gauss_sph_logpdf. rewrite !gauss_core_R.
+  assert (E : forall mu, rsum D (fun k => pc_sph RO c * gdiff RO mu y k * (pc_sph RO c * gdiff RO mu y k))
+                         = / c * rsum D (fun i => (y i - mu i) * (y i - mu i))).
+  { intros mu. rewrite <- rsum_scale_l. apply rsum_ext; intros i Hi.
+    unfold gdiff, osub. cbn [oadd oopp omul RO].
+    transitivity ((pc_sph RO c * pc_sph RO c) * ((y i - mu i) * (y i - mu i))). ring.
+    replace (pc_sph RO c * pc_sph RO c) with (/ c). reflexivity.
+    unfold pc_sph. cbn [oinv osqrt RO]. rewrite <- Rinv_mult. rewrite sqrt_sqrt; auto. left; auto. }
+  cbn [omul RO]. rewrite !E.
+  unfold Rdiv in H. rewrite ln_mult in H by (auto; apply Rinv_0_lt_compat; auto). rewrite ln_Rinv in H by auto.
+  set (dj := rsum D (fun i => (y i - muj i) * (y i - muj i))) in *.
+  set (dk := rsum D (fun i => (y i - muk i) * (y i - muk i))) in *.
+  assert (Hic : 0 < / c) by (apply Rinv_0_lt_compat; auto).
+  assert (H2 : / c * (dj + 2 * c * (ln pik + - ln pij)) < / c * dk) by (apply Rmult_lt_compat_l; auto).
+  replace (/ c * (dj + 2 * c * (ln pik + - ln pij))) with (/ c * dj + 2 * (ln pik - ln pij)) in H2 by (field; lra).
+  lra.
+Qed.
